@@ -117,11 +117,13 @@ class DLISFile:
             yield logical_file.file_header_item.parent
 
             # sets without items (e.g. left behind by a rejected add_* call) make no record and are skipped
-            yield from (s for s in logical_file._eflr_sets[eflr_types.OriginSet].values() if s.n_items)
+            for set_type, set_dict in logical_file._eflr_sets.items():
+                if set_type is eflr_types.OriginSet:
+                    yield from (s for s in set_dict.values() if s.get_items_added_via(set_dict))
 
             for set_type, set_dict in logical_file._eflr_sets.items():
                 if set_type not in (eflr_types.FileHeaderSet, eflr_types.OriginSet):
-                    yield from (s for s in set_dict.values() if s.n_items)
+                    yield from (s for s in set_dict.values() if s.get_items_added_via(set_dict))
 
             yield from logical_file._no_format_frame_data
 
@@ -171,7 +173,7 @@ class DLISFile:
         for idx_lf, logical_file in enumerate(self.logical_files):
             n += 1
             for set_dict in logical_file._eflr_sets.values():
-                n += sum(1 for eflr_set in set_dict.values() if eflr_set.n_items)
+                n += sum(1 for eflr_set in set_dict.values() if eflr_set.get_items_added_via(set_dict))
 
             # ... its frame data and no-format data records
             for mfd in multi_frame_data_objects[idx_lf]:
@@ -216,6 +218,8 @@ class DLISFile:
             for lf in self.logical_files:
                 for set_dict in lf._eflr_sets.values():
                     for eflr_set in set_dict.values():
+                        if not eflr_set.get_items_added_via(set_dict):
+                            continue  # (registered by a call that was rejected: nothing of this logical file is in it)
                         if owners.setdefault(id(eflr_set), lf) is not lf:
                             raise RuntimeError(f"{eflr_set} is used by more than one logical file; "
                                                f"give the sets of each logical file their own 'set_name'")
